@@ -522,6 +522,12 @@ pub fn run(op: &str, a: &[String]) -> Vec<String> {
             let sc = vec!["1048576"; n + 8].join(",");
             let wa = run("ts.readasync", &[a[0].clone(), a[2].clone(), sc, "fin".into()]);
             o.push(wa[0].clone());
+            // … and delivered in pieces of 3, 1, 250, 7, 1200, 100 bytes: every read is short
+            // (the same pattern on the model side)
+            let pat = ["3", "1", "250", "7", "1200", "100"];
+            let toks: Vec<&str> = (0..n + 8).map(|i| pat[i % 6]).collect();
+            let wf = run("ts.readasync", &[a[0].clone(), a[2].clone(), toks.join(","), "fin".into()]);
+            o.push(wf[0].clone());
             o
         }
         // ts.hist role names hex script tail | (as ts.all)
